@@ -222,4 +222,11 @@ class ChargingStation(VehicleState):
         :return: an exception due to failure or an optional updated simulation
         """
 
+        vehicle = sim.vehicles.get(self.vehicle_id)
+        mechatronics = env.mechatronics.get(vehicle.mechatronics_id) if vehicle is not None else None
+        if vehicle is not None and mechatronics is not None and mechatronics.is_full(vehicle):
+            # a vehicle that is already full when it plugs in (it has just arrived at the station or
+            # left the queue) has nothing to charge; the terminal condition releases the plug at
+            # the next update. charging it would be an error, which would undo the arrival.
+            return None, sim
         return charge(sim, env, self.vehicle_id, self.station_id, self.charger_id)
